@@ -1,7 +1,7 @@
 PROP = dict(
     gen=["layouts"],
-    proof_files=["Properties/C04.v", "Proofs/PduStreamProofs.v"],
-    model_files=["Model/Pdu.v", "Model/PduRun.v"],
+    proof_files=["Properties/C04.v", "Proofs/PduStreamProofs.v", "Proofs/PduAllocProofs.v"],
+    model_files=["Model/Pdu.v", "Model/PduRun.v", "Model/PduAlloc.v", "Model/PduAllocRun.v"],
     trusted=["Gen/PduLayouts.v (registry dump)", "runtime.MemStats.TotalAlloc deltas for the observed allocation; 10 s watchdog for 'returns'"],
     assumptions=["Go allocator / GC behaviour is runtime (not modelled): the memory clause is tied by measurement against 64*65536 octets per call (a 64 KiB frame of 16380 empty TLVs measures 2.3 MB: one map entry and binary.Read temporaries per 4-octet TLV), hence partial",
                  "io.ReadFull, io.TeeReader, bufio, encoding/binary are Go library code (modelled; tied by the generated cases)"],
@@ -12,7 +12,7 @@ MANIFEST = dict(
     technique="Coq proof of totality over all byte strings and all read schedules (structural induction, fuel shown unreachable) + vm_compute correspondence on malformed streams",
     text="Theorems in coq/Properties/C04.v: for EVERY byte string and EVERY read schedule the ReadPDU model neither panics nor exhausts fuel, takes at most 65536 octets (exactly those "
          "leave the transport), and returns an error or a PDU of a registered layout decoded from exactly the consumed octets; a header announcing <16 or >65536 is rejected after "
-         "exactly 16 octets. Partial on the memory clause: allocation is measured on the implementation (TotalAlloc per call against a fixed bound), not proved.",
+         "exactly 16 octets. Memory clause: the octets requested with make() (body buffer, TLV values, UDH elements, message) are bounded by 5 x 65536 for all inputs, and are 0 for a rejected header (theorems); what the Go allocator adds on top (maps, bufio, tee-buffer growth) is measured per call (TotalAlloc) against 64 x 65536 — that part is partial.",
     note="Trusted: Coq kernel + vm_compute; registry dumper; chunking reader; Go runtime for the measured allocation. No axioms.",
 )
 ENGINE = {"name": "pdu", "path": "", "serves_properties": ["C04"], "kind_free_text": ""}
